@@ -35,7 +35,7 @@ Section SparseFun.
     | _, _ => CL k1 v1                  (* unreachable for distinct keys of equal length *)
     end.
 
-  Fixpoint c_insert (k : key) (v : V) (t : ctree) : ctree :=
+  Fixpoint c_insert (k : key) (v : V) (t : ctree) {struct t} : ctree :=
     match t with
     | CE => CL k v
     | CL k' v' => if key_eqb k k' then CL k v else c_split k v k' v'
@@ -56,7 +56,7 @@ Section SparseFun.
     | _, _ => CN l r
     end.
 
-  Fixpoint c_delete (k : key) (t : ctree) : ctree :=
+  Fixpoint c_delete (k : key) (t : ctree) {struct t} : ctree :=
     match t with
     | CE => CE
     | CL k' v' => if key_eqb k k' then CE else t
@@ -68,7 +68,7 @@ Section SparseFun.
         end
     end.
 
-  Fixpoint c_get (k : key) (t : ctree) : option V :=
+  Fixpoint c_get (k : key) (t : ctree) {struct t} : option V :=
     match t with
     | CE => None
     | CL k' v' => if key_eqb k k' then Some v' else None
@@ -94,13 +94,13 @@ Section SparseFun.
     end.
 
   (* proof generation on the functional tree: siblings top-down and what sits at the end *)
-  Fixpoint c_sides (pre ks : key) (t : ctree) : list Dg :=
+  Fixpoint c_sides (pre ks : key) (t : ctree) {struct t} : list Dg :=
     match t, ks with
     | CN l r, false :: ks' => c_root (pre ++ [true]) r :: c_sides (pre ++ [false]) ks' l
     | CN l r, true :: ks' => c_root (pre ++ [false]) l :: c_sides (pre ++ [true]) ks' r
     | _, _ => []
     end.
-  Fixpoint c_terminal (pre ks : key) (t : ctree) : @xleaf V :=
+  Fixpoint c_terminal (pre ks : key) (t : ctree) {struct t} : @xleaf V :=
     match t, ks with
     | CN l r, false :: ks' => c_terminal (pre ++ [false]) ks' l
     | CN l r, true :: ks' => c_terminal (pre ++ [true]) ks' r
